@@ -87,6 +87,48 @@ theorem close_rewrite_between_copies_is_consistent :
       recover ⟨1, 1, 1, 0⟩ ⟨2, 1, 1, 1⟩ = some ⟨2, 2, 1, 1, 2, 0⟩ :=
   ⟨stR, reach_of_runTrace _ .refl (Option.some_get okR).symm, by decide, by decide, by decide⟩
 
+/-- restore opens every destination so that its contents are REPLACED (regenerated table entry) -/
+theorem restore_dest_in_source :
+    Generated.restoreReplacesContents = true ∧ Generated.backupReplacesContents = true := by decide
+
+/-- **restore replaces**: with a replacing open the restored file equals the backup file byte for
+    byte, whatever the target held (longer, shorter, a different database). -/
+theorem restore_replaces {α : Type} (old new : List α) : overwrite true old new = new := rfl
+
+/-- … and so does the restored pair, whatever database was at the target path -/
+theorem restore_replaces_pair (target : Option (PF × Wal)) (b : PF × Wal) : restoreOver true target b = b := rfl
+
+/-- an in-place overwrite WITHOUT truncation is exact only when the old file is not longer -/
+theorem overwrite_in_place_exact_iff {α : Type} (old new : List α) :
+    overwrite false old new = new ↔ old.length ≤ new.length := by
+  simp only [overwrite, Bool.false_eq_true, if_false]
+  constructor
+  · intro h
+    have := congrArg List.length h
+    simp at this; omega
+  · intro h; simp [List.drop_eq_nil_of_le h]
+
+/-- **Counterexample (in-place restore)**: when the target holds the backup's own log continued
+    (`old = new ++ tail`), the tail survives: the "restored" file is the OLD file. -/
+theorem C29_counterexample_restore_in_place {α : Type} (new tail : List α) (h : tail ≠ []) :
+    overwrite false (new ++ tail) new = new ++ tail ∧ overwrite false (new ++ tail) new ≠ new := by
+  have e : overwrite false (new ++ tail) new = new ++ tail := by simp [overwrite]
+  refine ⟨e, ?_⟩
+  rw [e]; intro h'
+  have := congrArg List.length h'
+  simp at this; exact h this
+
+/-- at the level of the database: one transaction, backup, a second transaction, restore over the
+    SAME path in place — the log's tail survives and recovery shows BOTH transactions instead of the
+    state at backup time; with a compaction after the backup the surviving manifest makes open fail. -/
+theorem C29_counterexample_restore_over_live :
+    let b : PF × Wal := (⟨1, 0, 0, 0⟩, ⟨1, 0, 0, 0⟩)          -- backup after transaction 0
+    let live : PF × Wal := (⟨2, 0, 0, 0⟩, ⟨2, 0, 0, 0⟩)       -- the source after one more commit
+    let live2 : PF × Wal := (⟨2, 1, 2, 0⟩, ⟨2, 2, 1, 0⟩)      -- … and a compaction
+    recover (restoreOver true (some live) b).1 (restoreOver true (some live) b).2 = some ⟨1, 1, 0, 0, 1, 0⟩ ∧
+    recover (restoreOver false (some live) b).1 (restoreOver false (some live) b).2 = some ⟨2, 2, 0, 0, 2, 0⟩ ∧
+    recover (restoreOver false (some live2) b).1 (restoreOver false (some live2) b).2 = none := by decide
+
 def tx : List Label := [.cW, .cI]
 def compaction : List Label := [.kP, .kS, .kM]
 
